@@ -82,6 +82,40 @@ def run_case(case):
                 cls = "row-heights-reset" if "row_heights" in err else "col-widths" if "col_widths" in err else "other"
                 return {"detail": err, "class": cls}
             return {"ok": True, "count": n * sum(len(g["row_heights"]) + len(g["col_widths"]) + 9 for g in g0)}
+        if case.get("loaded"):
+            # history on a LOADED document that has stored borders: sizes are set without anything having been read first, then saved
+            rnd = random.Random(case["seed"])
+            doc = Document(num_rows=5, num_cols=4)
+            t = doc.sheets[0].tables[0]
+            for _ in range(3):
+                t.set_cell_border(rnd.randrange(5), rnd.randrange(4), rnd.choice(["top", "left", "bottom", "right"]),
+                                  Border(rnd.choice([1.0, 3.0, 5.0, 8.0]), RGB(0, 0, 0), "solid"), rnd.choice([1, 2]))
+            p0 = os.path.join(td, "bordered.numbers")
+            with warnings.catch_warnings():
+                warnings.simplefilter("ignore")
+                doc.save(p0)
+                d1 = Document(p0)
+            t1 = d1.sheets[0].tables[0]
+            if case["query"]:
+                geometry(d1)
+            want = {}
+            for r in (range(5) if case["loaded"] == "all" else rnd.sample(range(5), 2)):
+                t1.row_height(r, 40 + 3 * r)
+                want[("row_heights", r)] = 40 + 3 * r
+            for c in (range(4) if case["loaded"] == "all" else rnd.sample(range(4), 2)):
+                t1.col_width(c, 100 + 7 * c)
+                want[("col_widths", c)] = 100 + 7 * c
+            p1 = os.path.join(td, "sized.numbers")
+            with warnings.catch_warnings():
+                warnings.simplefilter("ignore")
+                d1.save(p1)
+            g = geometry(Document(p1))
+            for k, v in want.items():
+                got = g[0][k[0]][k[1]]
+                if got != v:
+                    return {"detail": f"document with stored borders, loaded, {k[0][:-1]} {k[1]} set to {v} ({'geometry queried' if case['query'] else 'nothing read'} "
+                                      f"before), saved and reopened: reads {got}", "class": "set-on-loaded"}
+            return {"ok": True, "count": len(want)}
         rnd = random.Random(case["seed"])
         doc = Document(num_rows=5, num_cols=4)
         doc.add_sheet("Other", "T2", num_rows=3, num_cols=3)
@@ -106,8 +140,9 @@ def run_case(case):
                 t.col_width(c, w)
                 want[("col_widths", c)] = w
         if "headers" in sets:
-            t.num_header_rows = want["header_rows"] = rnd.choice([0, 1, 2, 3])
-            t.num_header_cols = want["header_cols"] = rnd.choice([0, 1, 2])
+            # up to the whole table (the setters allow a count up to the table's size, at most 5)
+            t.num_header_rows = want["header_rows"] = rnd.choice([0, 1, 2, 3, 5, 5])
+            t.num_header_cols = want["header_cols"] = rnd.choice([0, 1, 2, 4, 4])
         if "names" in sets:
             t.name = want["table"] = rnd.choice(["Renamed", "Täble ✓", "a b", "T::x"])
             doc.sheets[0].name = want["sheet"] = rnd.choice(["First", "Blätter", "S 1"])
@@ -158,6 +193,9 @@ def main():
         for s in range(6 if big else 2):
             for q in (False, True):
                 cases.append({"set": g, "seed": a.seed * 100 + i * 10 + s, "query": q, "cycles": 2})
+    for s in range(8 if big else 3):
+        for q in (False, True):
+            cases.append({"set": ["loaded"], "loaded": "all" if s % 2 == 0 else "some", "seed": a.seed * 100 + 900 + s, "query": q, "cycles": 1})
     return common.run(cases, run_case, key=lambda c: str(c.get("path") or c.get("set")) + str(c.get("query")) + str(c.get("seed")))
 
 
